@@ -186,6 +186,113 @@ func closeDecision(r *Report, f *ssa.Function, only string) {
 			r.Fail("path", fmt.Sprintf("%s: close requested by %s", fnName(f), n), "the close decision no longer tests "+n, nil, f.Pos())
 		}
 	}
+	if only != "" {
+		return
+	}
+	// "the connection stays usable unless either side asked to close": the
+	// response is marked close only under the three conditions, and errClose
+	// is returned on a normal exit only from there or after a failed write.
+	allowed := map[ssa.Value]bool{}
+	for _, leaf := range closeLeaves(f, req) {
+		allowed[leaf.val] = true
+	}
+	var storeBlocks []*ssa.BasicBlock
+	for _, in := range instrs(f) {
+		if !isCloseStore(in) {
+			continue
+		}
+		storeBlocks = append(storeBlocks, in.Block())
+		bad := ""
+		seen := map[*ssa.BasicBlock]bool{}
+		var walk func(b *ssa.BasicBlock)
+		walk = func(b *ssa.BasicBlock) {
+			if seen[b] || bad != "" {
+				return
+			}
+			seen[b] = true
+			if len(b.Preds) == 0 {
+				bad = "unconditionally"
+				return
+			}
+			for _, p := range b.Preds {
+				iff, isIf := p.Instrs[len(p.Instrs)-1].(*ssa.If)
+				if !isIf {
+					walk(p)
+					continue
+				}
+				cond, neg := iff.Cond, false
+				for {
+					u, isU := cond.(*ssa.UnOp)
+					if !isU || u.Op != token.NOT {
+						break
+					}
+					cond, neg = u.X, !neg
+				}
+				takenTrue := p.Succs[0] == b
+				if p.Succs[0] == p.Succs[1] {
+					walk(p)
+					continue
+				}
+				if !allowed[cond] {
+					bad = "on a condition other than req.Close, res.Close or p.Closing() (" + r.W.Pos(iff.Cond.Pos()) + ")"
+					return
+				}
+				if takenTrue == neg {
+					bad = "when the close condition is false (" + r.W.Pos(iff.Cond.Pos()) + ")"
+					return
+				}
+			}
+		}
+		walk(in.Block())
+		r.Decide("path", fmt.Sprintf("%s: the response is marked close only when a side asked for it or the proxy is closing", fnName(f)), bad == "", "every edge into the block that sets res.Close = true is the true edge of req.Close, res.Close or p.Closing()", "the proxy marks the response close "+bad+": the connection is closed although nobody asked, and the client's next (or pipelined) request gets no response", in.Pos())
+	}
+	var failEdges []nilTest
+	for _, name := range []string{nResWrite, nFlush} {
+		for _, c := range plainCalls(f, name) {
+			failEdges = append(failEdges, errTests(c)...)
+		}
+	}
+	for k, ret := range returns(f) {
+		if kind, _ := exitKind(f, ret); kind != "normal" {
+			continue
+		}
+		for _, v := range retVals(ret, 0) {
+			phi, isPhi := v.(*ssa.Phi)
+			if !isPhi {
+				continue
+			}
+			okAll := true
+			var visit func(phi *ssa.Phi, depth int)
+			visit = func(phi *ssa.Phi, depth int) {
+				for i, e := range phi.Edges {
+					if inner, isP := e.(*ssa.Phi); isP && depth < 6 {
+						visit(inner, depth+1)
+						continue
+					}
+					if errClass(e) != "global:errClose" {
+						continue
+					}
+					pb := phi.Block().Preds[i]
+					justified := false
+					for _, sb := range storeBlocks {
+						if sb == pb || sb.Dominates(pb) {
+							justified = true
+						}
+					}
+					for _, t := range failEdges {
+						if t.NonNil == pb || edgeDominatesNonNil(t, pb) {
+							justified = true
+						}
+					}
+					if !justified {
+						okAll = false
+					}
+				}
+			}
+			visit(phi, 0)
+			r.Decide("path", fmt.Sprintf("%s: normal exit #%d ends the connection only after a close request or a failed write", fnName(f), k+1), okAll, "every errClose reaching this return comes from the close-request block or from the error edge of the response write / flush", "the exchange returns errClose on a path where nobody asked to close and the write succeeded: the connection is dropped and the client's next request is lost", ret.Pos())
+		}
+	}
 }
 
 func c01(r *Report) {
@@ -332,7 +439,7 @@ func c01(r *Report) {
 		// the loop's deferred conn.Close
 		okc := false
 		for _, c := range calls(loop, "(net.Conn).Close") {
-			if d, isD := c.(*ssa.Defer); isD && d.Call.Value == ssa.Value(loop.Params[1]) && d.Block() == loop.Blocks[0] {
+			if d, isD := c.(*ssa.Defer); isD && isParamVal(d.Call.Value, loop.Params[1]) && d.Block() == loop.Blocks[0] {
 				okc = true
 			}
 		}
